@@ -108,6 +108,45 @@ def main():
     if not chan_ok:
         return 1
 
+    # the collector model (TraceColl.tla / Collector.tla) likewise: a submitted set removed from a batch, a record's
+    # parent changed in a report, a retained entry invented
+    def coll(name, fn, want):
+        ls = copy.deepcopy(lines)
+        fn(ls)
+        p = os.path.join(E.OUT, "replay", "selftest", "corrupt-%s.ndjson" % name)
+        open(p, "w").write("\n".join(json.dumps(e, separators=(",", ":")) for e in ls) + "\n")
+        before = len(E.COLL["drift"])
+        E.validate(p, "selftest-" + name, parts=1)
+        got = sorted({d["w"] for d in E.COLL["drift"][before:]})
+        good = want in got
+        print("selftest %-22s -> %s %s" % (name, got, "ok" if good else "NOT REPORTED AS %s" % want))
+        return good
+
+    batches = [i for i, e in enumerate(lines) if e["ev"] == "batch" and e["subs"]]
+    afters = [i for i, e in enumerate(lines) if e["ev"] == "after"]
+
+    def set_removed(ls):
+        del ls[batches[0]]["subs"][0]
+
+    def rec_parent(ls):
+        ls[reports[0]]["recs"][0]["parent"] = "00000000000000aa"
+
+    def entry_invented(ls):
+        ls[afters[0]]["active"].append({"cid": 4242, "sets": 0, "dang": 0})
+
+    if E.COLL["drift"]:
+        print("selftest: the unchanged trace drifts from the collector model:", E.COLL["drift"][:3])
+        return 1
+    coll_ok = all([
+        coll("coll-set-removed", set_removed, "reported-records-differ"),
+        coll("coll-record-parent", rec_parent, "reported-records-differ"),
+        coll("coll-entry-invented", entry_invented, "retained-state-differs"),
+    ]) if batches and afters else False
+    E.COLL["drift"].clear()
+    if not coll_ok:
+        print("selftest: collector conformance is not bound to the trace")
+        return 1
+
     ok = all([
         corrupt("parent-id", parent, "C02"),
         corrupt("report-removed", drop_report, "C01"),
